@@ -417,11 +417,22 @@ class Sym:
     def __init__(self, fn):
         self.fn = fn
         self.memo = {}
+        self._mb = None
 
     def operand(self, o, depth=0):
         if o[0] == 'k':
             return ('const', o[1], o[2] if len(o) > 2 else None)
         return self.place(o[1], depth)
+
+    def mut_borrowed(self):
+        if self._mb is None:
+            mb = set()
+            for b in self.fn.blocks:
+                for st in b['s']:
+                    if st[0] == 'a' and st[2]['k'] in ('ref', 'rawptr') and st[2].get('m') and not st[2]['p'][1]:
+                        mb.add(st[2]['p'][0])
+            self._mb = mb
+        return self._mb
 
     def place(self, pl, depth=0):
         base = self.local(pl[0], depth)
@@ -439,6 +450,11 @@ class Sym:
             return ('unknown', l)
         fn = self.fn
         ds = fn.defs.get(l, [])
+        if l in self.mut_borrowed() and fn.local_ty(l) in ('bool',) :
+            # a flag handed out by `&mut`: its value is whatever the callee left there
+            r = ('phi', l)
+            self.memo[l] = r
+            return r
         if 1 <= l <= fn.argc and not ds:
             r = ('arg', l)
         elif len(ds) != 1:
@@ -785,8 +801,9 @@ def tracked_bools(fn):
         for st in b['s']:
             if st[0] == 'sd':
                 sd.add(st[1])
+    mb = sym(fn).mut_borrowed()
     for l, ds in fn.defs.items():
-        if fn.local_ty(l) != 'bool' or l not in sd or len(ds) < 2:
+        if fn.local_ty(l) != 'bool' or l not in sd or len(ds) < 2 or l in mb:
             continue
         ok = True
         for d in ds:
@@ -1281,3 +1298,35 @@ def lock_class_of_call(fn, bb):
     if not t['a']:
         return '?'
     return S.describe(S.operand(t['a'][0]))
+
+
+def _live_at(fn, bb, idx=None):
+    live_guards(fn)
+    if idx is None or idx >= len(fn.blocks[bb]['s']):
+        return set(live_guards(fn)[bb])
+    gl = guard_locals(fn)
+    cur = set(fn._sym['liveg_in'][bb] or ())
+    for st in fn.blocks[bb]['s'][:idx]:
+        if st[0] == 'sd':
+            cur.discard(st[1])
+        elif st[0] == 'a':
+            rv = st[2]
+            if not st[1][1] and st[1][0] in gl and rv['k'] == 'use' and rv['o'][0] == 'm' and not rv['o'][1][1]:
+                cur.discard(rv['o'][1][0])
+                cur.add(st[1][0])
+            elif rv['k'] == 'use' and rv['o'][0] == 'm' and not rv['o'][1][1] and rv['o'][1][0] in gl:
+                cur.discard(rv['o'][1][0])
+    return cur
+
+
+def short_ty(t):
+    """last path segment of a type string, generics kept but shortened: used as a lock class."""
+    t = t.strip()
+    t = re.sub(r"[\w:]+::(\w+)", r"\1", t)
+    return t
+
+
+def held_types_at(fn, bb, idx=None):
+    """guarded types (short) of the guards live at a point: the type-based lock class."""
+    gl = guard_locals(fn)
+    return {short_ty(gl[l]) for l in _live_at(fn, bb, idx) if l in gl}
